@@ -15,7 +15,7 @@ if (cd $S/inst && GOTOOLCHAIN= go test -vet=off -count=1 ./... > $S/suite.txt 2>
 # 2
 $V/build.sh $S/b >/dev/null 2>&1 || { echo "selftest build: FAIL"; exit 1; }
 NSEEDS=${SELFTEST_SEEDS:-300}; NPROC=${SELFTEST_PROCS:-32}
-for prof in c01f c04 c05 c06 c08 c13 c16 c09 c02f c10 c11 c12 c14 c17 c20 wcut c04e; do
+for prof in ${SELFTEST_PROFILES:-c01f c04 c05 c06 c08 c13 c16 c09 c02f c10 c11 c12 c14 c17 c20 wcut c04e}; do
   for i in $(seq 1 $NPROC); do
     gm=$(( (i % 3 == 0) ? 16 : ((i % 3 == 1) ? 1 : 4) ))
     # wcut / c04e: enumeration workers; without a budget they enumerate 2 resp. 3 programs completely (thousands of runs)
@@ -34,7 +34,9 @@ for i in range(1,n+1):
     if base is None: base=h; continue
     for k,v in h.items():
         total+=1
-        if base.get(k)!=v: bad+=1
+        if base.get(k)!=v:
+            bad+=1
+            if bad<=3: print(f"  differs: run {k} in process {i}: {v} vs {base.get(k)}")
 print(f"selftest determinism {prof}: {'PASS' if bad==0 else 'FAIL'} ({len(base)} seeds x {n} processes, GOMAXPROCS env 1/4/16: {bad} differing hashes of {total} compared)")
 sys.exit(1 if bad else 0)
 PY
